@@ -11,6 +11,7 @@ def main(tier, replay=None):
         dict(scn="c19", name="pop3d-state-graph", opts=["mode=pop3d"] + ([] if q else ["thorough=1"]), bounds="0,0,0,0", total=0),
         dict(scn="c19", name="popup-sessions", opts=["mode=popup", "maxdepth=%d" % (3 if q else 4)], bounds="0,0,0,0", total=0, deadline=900),
     ]
+    fams.append(dict(scn="c19", name="pop3d-message-file-errors", opts=["mode=pop3d", "maxdepth=%d" % (1 if q else 2)], bounds="0,1,0,0", total=1, deadline=1200))
     plain_src = run_families(res, "C19", tier, fams)
     res.rule = ("pop3d: explicit-state exploration on the real qmail-pop3d under the virtual kernel: for each maildir population (empty; new/ and cur/; "
                 "dot-leading lines, no final newline, empty and header-only files, hidden/future/tmp files) sessions are extended one command "
